@@ -159,10 +159,15 @@ def splitRecords : List Char → List (List Char)
     if c = '\n' ∧ d = '>' then [] :: splitRecords rest
     else consHead c (splitRecords (d :: rest))
 
-/-- `_parse_fasta_files`: `"\n".join(texts)[1:].split("\n>")`.
+/-- `_parse_fasta_files`: `("\n" + "\n".join(texts)).split("\n>")[1:]` — with a line break put in
+front, every record (the first included) is preceded by the separator `\n>`; the piece before the
+first separator (empty when the text begins with `>`, otherwise blank lines, the line breaks that
+join empty files, or other text that precedes the first record) is no record and is dropped.
+(Repaired line, /repo f95d0dc; the former `"\n".join(texts)[1:].split("\n>")` is the refuted variant
+`parseFastaFilesDropFirstChar` in `Mutants/Decoys.lean`.)
 src: mokapot/parsers/fasta.py:313-332 -/
 def parseFastaFiles (files : List (List Char)) : List (List Char) :=
-  splitRecords ((joinWith ['\n'] (files.map univNL)).drop 1)
+  (splitRecords ('\n' :: joinWith ['\n'] (files.map univNL))).drop 1
 
 /-- line boundaries of `str.splitlines` (`\r\n` cannot occur after `univNL`) -/
 def isBreak (c : Char) : Bool :=
